@@ -432,7 +432,8 @@ EK = {"Enter", "Recur", "Clean", "Cease", "Abort", "Exit", "ExtRet", "RemRet", "
 def outside_model(prog):
     """Programs the Coq model does not express (decided by the direct oracle only): a doer whose
     clean/cease/abort/exit context itself raises."""
-    return any(d.get("hookraise") for d in prog["defs"].values()) or bool(prog.get("manual"))
+    return (any(d.get("hookraise") for d in prog["defs"].values())
+            or bool(prog.get("manual") and prog["manual"]["then"] != "exit"))
 
 
 def to_coq(case, obs):
@@ -450,11 +451,12 @@ def to_coq(case, obs):
         again.append(f"({coq_option(eff, _fl, 'float')}, {coq_option(a.get('tyme'), _fl, 'float')})")
     return ("{| SchedCase.c_prog := %s; SchedCase.c_trace := %s; SchedCase.c_dones := %s; SchedCase.c_tyme := %s; "
             "SchedCase.c_scheds := %s; SchedCase.c_escape := %s; SchedCase.c_again := %s; SchedCase.c_async := %s; "
-            "SchedCase.c_fresh := %s |}" % (
+            "SchedCase.c_fresh := %s; SchedCase.c_manual := %s |}" % (
                 prog_to_coq(case), tr, dones, _hexfl(obs["tyme"]), scheds, coq_bool(obs["raised"].startswith("escape")),
                 coq_list(again, "option float * option float"), coq_bool(case.get("mode") == "ado"),
                 coq_list([f"({coq_option(fr.get('limit'), _fl, 'float')}, {_fl(fr['tyme'])})" for fr in case.get("fresh", [])],
-                         "option float * float")))
+                         "option float * float"),
+                ("(Some %s)" % coq_nat(case["manual"]["recurs"])) if case.get("manual") else "None"))
 
 
 # ----------------------------------------------------------------------------- trace utilities for oracles
